@@ -133,6 +133,7 @@ def run_one(ck, prog):
     check_slot_capacity(ck, prog, "C17.2")
     c = prog.ctx(fns["get_next_cqe"])
     check_cqe_index(ck, prog, "C17.2")
+    check_completion_head(ck, prog, "C17.2")
     check_flush_publishes(ck, prog, "C17.2")
     for helper in ("sync_ktail_release", "sync_ktail_relaxed"):
         hf = prog.fns.get(Q + "UringSubmissionQueue::" + helper)
@@ -370,3 +371,34 @@ def check_cqe_index(ck, prog, rule):
         if mentions(a[0], c.prov, lambda z: z[0] == "field" and z[2] == "entries"):
             idx_ok = shape_masked_shift(strip_casts(a[1]), c.prov, None, loader="acquire_khead", flag="IORING_SETUP_CQE32")
     ck.ob(rule, "cqe-index=(head&mask)<<shift", idx_ok, fn=c.path, detail="the completion index must be (kernel_head & ring_mask) << shift: masking after the shift reads already-consumed slots on rings with 32-byte completions")
+
+
+def check_completion_head(ck, prog, rule):
+    """the completion head is a free-running counter of ENTRIES: one completion handed out moves it by one (whatever the entry width),
+    and what is published is head + n - never a masked index (a head that wraps to 0 while the kernel's tail runs on makes the ring look
+    full to the kernel and old completions look new to us). Shared by C17.2 and C18.6."""
+    f = prog.fns.get(URING + "get_next_cqe")
+    if ck.anchor(rule, "get_next_cqe", f):
+        c = prog.ctx(f)
+        adv = [bb for bb, t in c.cfg.calls(lambda t: (t.get("callee") or "").endswith("UringCompletionQueue::advance"))]
+        ck.ob(rule, "one-completion-moves-the-head-by-one", bool(adv) and all(len(c.args(bb)) == 2 and fold(c.args(bb)[1]) == 1 for bb in adv), fn=c.path, site=c.site(adv[0]) if adv else None,
+              detail=f"get_next_cqe hands out one completion and must advance the head by exactly 1 (found {[show(c.args(bb)[1]) for bb in adv]}); the head counts entries, not 16-byte slots")
+    a = prog.fns.get(Q + "UringCompletionQueue::advance")
+    if ck.anchor(rule, "UringCompletionQueue::advance", a):
+        ac = prog.ctx(a)
+        ops = [op for op in inventory(a, ac.cfg, ac.prov) if op.op not in ("load",)]
+        ok = len(ops) == 1 and mentions(ops[0].recv, ac.prov, lambda z: z[0] == "field" and z[2] == "kernel_head")
+        if ok:
+            v = ops[0].args[0] if ops[0].args else None
+            masked = v is not None and mentions(v, ac.prov, lambda z: (z[0] == "bin" and z[1] in ("BitAnd", "Rem")) or (z[0] == "field" and z[2] == "ring_mask"))
+            uses_n = v is not None and mentions(v, ac.prov, lambda z: z[0] == "param" and z[1] == 2)
+            if ops[0].op == "fetch_add":
+                vs = strip_casts(v)
+                ok = isinstance(vs, tuple) and vs[0] == "param" and vs[1] == 2
+            elif ops[0].op == "store":
+                reads_head = mentions(v, ac.prov, lambda z: (z[0] == "field" and z[2] == "kernel_head") or (z[0] == "call" and (z[1] or "").endswith(("get_khead_relaxed", "acquire_khead"))))
+                ok = uses_n and reads_head and not masked
+            else:
+                ok = False
+        ck.ob(rule, "published-head-is-head-plus-n-unmasked", ok, fn=a["path"], detail="advance must publish (head + n) as a free-running 32-bit counter: fetch_add(n), or a store of head.wrapping_add(n) - never masked with ring_mask")
+
